@@ -508,6 +508,38 @@ impl C12 {
                 Ok(Err(_)) => {}
             }
         }
+        // systematic: a non-ASCII / control / out-of-alphabet character at every position of a canonical
+        // spelling (a tokenizer indexing a table by the byte after the destination meets it here)
+        if !legal.is_empty() {
+            let nasty = ['\u{80}', 'é', '\u{7f}', '{', '\u{0}', '♞', '\u{10ffff}', '\u{b1}'];
+            for _ in 0..(if miri { 1 } else { 3 }) {
+                let m = *rng.pick(legal);
+                let sp = spellings(p, legal, m);
+                let base: Vec<char> = render(&sp[0].0).chars().collect();
+                for i in 0..=base.len() {
+                    for c in nasty.iter() {
+                        if miri && !rng.chance(1, 2) {
+                            continue;
+                        }
+                        let mut t = base.clone();
+                        t.insert(i, *c);
+                        let text: String = t.iter().collect();
+                        rep.count("ev_fuzz_strings");
+                        rep.count("ev_nasty_char_insertions");
+                        rep.eval();
+                        match call(b, &text) {
+                            Err(_) => rep.violation("C12/panic", format!("fen={} text={:?}", p.fen(), text)),
+                            Ok(Ok(mm)) => {
+                                if !legal.contains(&model_move(mm)) {
+                                    rep.violation("C12/returned-illegal-move", format!("fen={} text={:?} -> {}", p.fen(), text, mm));
+                                }
+                            }
+                            Ok(Err(_)) => {}
+                        }
+                    }
+                }
+            }
+        }
         if sample {
             rep.sample(format!("{} : {} legal moves; spellings include {}", p.fen(), legal.len(), shown.join(" ")));
         }
@@ -599,6 +631,26 @@ pub fn run_c12(ctx: &Ctx, rep: &mut Report) {
                 mon.position(&b, &p, &legal, rep, rng, true);
                 rep.count("ev_directed_positions");
             }
+        }
+    });
+    // "arbitrary positions": boards the library accepts although one side owns two dozen queens and rooks
+    // (220-400 legal moves); every spelling and the fuzz families as on any other position
+    let n = ctx.budget(12, 120, 1, 6);
+    ctx.cases(rep, "many-moves", n, |_g, rng, rep| {
+        if miri && ctx.shard >= 4 {
+            return;
+        }
+        let p = if rng.chance(1, 6) { RPos::from_fen("R6R/3Q4/1Q4Q1/4Q3/2Q4Q/Q4Q2/pp1Q3Q/kBNN1KB1 w - - 0 1").unwrap() } else { crate::synth::many_moves_position(rng) };
+        if let Ok(b) = board_from_model_fen(&p) {
+            let legal = p.legal_moves();
+            rep.max("max_legal_moves_of_a_position", legal.len() as u64);
+            if legal.len() > 218 {
+                rep.count("ev_positions_with_more_than_218_moves");
+            }
+            let mut mon = C12 { variant: ctx.variant, prev: None };
+            mon.position(&b, &p, &legal, rep, rng, false);
+        } else {
+            rep.count("abst_many_moves_board_rejected_by_library");
         }
     });
     let n = ctx.budget(3500, 40_000, 2, 200);
